@@ -11,7 +11,7 @@
 #include "common/tpev/tpev_in.h"
 
 struct in_s {
-	uint8_t		use_enable;	/* 0: tpt_ev_add_args, 1: tpt_ev_enable_args(1, ...), 2: tpt_ev_add(ev), 3: tpt_ev_enable(1, ev) */
+	uint8_t		use_enable;	/* PRE == 1 only: 0 = add again, 1 = enable */
 	uint16_t	flags;
 	uint8_t		abstime;
 	uint64_t	data;
@@ -33,29 +33,15 @@ struct in_s {
 #ifndef PRE
 #define PRE 0
 #endif
-#ifndef API	/* 0: tpt_ev_add_args, 1: tpt_ev_enable_args(1, ...), 2: tpt_ev_add(ev), 3: tpt_ev_enable(1, ev) */
-#define API 2
+#ifndef API_EV	/* 1: tpt_ev_add(ev) / tpt_ev_enable(1, ev);  0: tpt_ev_add_args / tpt_ev_enable_args(1, ...) */
+#define API_EV 1
 #endif
 
 static int n_cb;
 static void cb(tp_event_p ev, tp_udata_p ud) { (void)ev; (void)ud; n_cb++; }
 
-#ifdef ARITH_ONLY
-/* Arithmetic-only variant for the entry points that copy `data` into a callee-local tp_event_t (no shared divider):
- * decided by cvc5 on the single Euclid-form property.  cvc5's integer encoding does not terminate on the satisfiable
- * reachability queries, so the path witnesses are compiled out here; the sibling job (same harness, same shape, CaDiCaL,
- * all other properties) carries "WITNESS! timer accepted" for exactly this path. */
-#undef V_WITNESS
-#undef V_WITNESS_MUST
-#define V_WITNESS(m) do { } while (0)
-#define V_WITNESS_MUST(m) do { } while (0)
-#endif
-
 void harness(void) {
 	V_BEGIN();
-#if defined(ARITH_ONLY) && !defined(REPLAY)
-	__CPROVER_assert(0, "WITNESS entry reached (path witness: sibling job)");
-#endif
 	tpev_env_init(IN.s_flags);
 	tp_udata_t *ud = (tp_udata_t *)v_alloc(sizeof(tp_udata_t));
 	memset(ud, 0, sizeof(*ud));
@@ -76,16 +62,20 @@ void harness(void) {
 	V_ASSUME((flags & ~(TP_F_ONESHOT | TP_F_DISPATCH)) == 0 && flags != (TP_F_ONESHOT | TP_F_DISPATCH));
 	uint32_t fflags = (uint32_t)UNIT | (IN.abstime ? TP_FF_T_ABSTIME : 0);
 	uint64_t data = IN.data;
+#ifdef WIN_BASE	/* args entry points, units with a division: symbolic offset in a concrete window (stated bound) */
+	V_ASSUME(data >= (uint64_t)(WIN_BASE) && data - (uint64_t)(WIN_BASE) < (uint64_t)(WIN_SIZE));
+#endif
 #ifdef KF_TIMER_USEC
 	V_ASSUME(!(UNIT == 2 && (data % 1000000ul) != 0));	/* known finding timer-usec (blocking clause) */
 #endif
 	tp_event_t ev = { .event = TP_EV_TIMER, .flags = flags, .fflags = fflags, .data = data };
 	int r;
-	switch (API) {
+	int api = (API_EV ? 2 : 0) + ((PRE && IN.use_enable) ? 1 : 0);
+	switch (api) {
 	case 0: r = tpt_ev_add_args(tpev_tpt, TP_EV_TIMER, flags, fflags, data, ud); break;
-	case 1: V_ASSUME(PRE); r = tpt_ev_enable_args(1, TP_EV_TIMER, flags, fflags, data, ud); break;
+	case 1: r = tpt_ev_enable_args(1, TP_EV_TIMER, flags, fflags, data, ud); break;
 	case 2: r = tpt_ev_add(tpev_tpt, &ev, ud); break;
-	default: V_ASSUME(PRE); r = tpt_ev_enable(1, &ev, ud); break;
+	default: r = tpt_ev_enable(1, &ev, ud); break;
 	}
 	/* (enable on a udata that was never added has tp_udata->tpt == NULL and is refused: covered in validate.c) */
 
